@@ -140,6 +140,24 @@ class C08(Property):
                 cases.append(Case("fromstr " + hexs(data), tags=("from_str", "bom-like-prefix")))
             except UnicodeDecodeError:
                 pass
+        # unusual line ends and white space at line starts: LF CR (every line after the first begins with a CR), lone CR inside
+        # lines, runs of blank lines in front of a header, NEL / form feed / vertical tab - a reader that looks at "the rest of the
+        # current chunk" (skips leading line breaks, peeks for CR) gives another answer when the chunk ends there (seed C08-k).
+        # Every cut position is tried (fixed sizes 1..64 and a first chunk of every length) in all encodings.
+        weird = ["osu file format v9\n\r\n\r[General]\n\rMode: 1\n\r\n\r[Metadata]\n\rTitle: t\n\r",
+                 "osu file format v9\r\n\r\n\r\r\n[General]\r\rMode: 2\n\n\n\r[Metadata]\nTitle:\ra\rb\n",
+                 "\n\n\n\r\n\r\n\r[General]\n\rMode: 3\n\x0b[Metadata]\n\x0cTitle: t\n\u0085[Editor]\nGridSize: 4\n",
+                 "osu file format v7\n \r\n\t\n\r \n[General]\nMode: 1\n"]
+        for text in weird:
+            for enc, d in encodings(text).items():
+                deliveries(d, "weird-line-ends-" + enc, all_sizes if enc == "utf8" or not quick else [1, 2, 3, 4, 7, 16], 2, all_caps if enc == "utf8" else [1, 2, 3, 5])
+                for cut in range(1, min(len(d), 80)):
+                    sched(["c" + hexs(d[:cut]), "c" + hexs(d[cut:])], ("weird-line-ends-" + enc, "two-chunks-every-cut"))
+                cases.append(Case("frompath " + hexs(d), tags=("from_path", "weird-line-ends")))
+            # and pushed against the default BufReader boundary of from_path
+            for pad in (8180, 8185, 8190, 8191, 8192):
+                d = ("//" + "p" * (pad - 3) + "\n").encode() + text.encode()
+                cases.append(Case("frompath " + hexs(d), tags=("from_path", "weird-line-ends", "around-8192")))
         # tiny streams: everything up to the BOM lengths
         for data in (b"", b"\n", b"a", b"ab", b"abc", b"\xef\xbb\xbf", b"\xff\xfe", b"\xfe\xff", b"\xef\xbb", b"\xff", b"\xff\xfe\n",
                      b"\xff\xfe\n\x00", b"\xfe\xff\x00\n", b"\xef\xbb\xbf[General]\nA"):
